@@ -473,6 +473,11 @@ where
                         Ok(CoroutineState::Suspend(y, timestamp))
                     }
                     CoroutineState::Syscall(y, syscall, state) => {
+                        // A yield made in a system call state carries its wake-up time in
+                        // the state itself; consume the request it pushed so that it can
+                        // not leak into a later yield on this thread.
+                        _ = Suspender::<Yield, Param>::is_cancel();
+                        _ = Suspender::<Yield, Param>::timestamp();
                         Ok(CoroutineState::Syscall(y, syscall, state))
                     }
                     _ => Err(Error::other(format!(
